@@ -14,9 +14,12 @@ CHECK = {
     "units": [
         unit("linearizable", "kv", _FILES, "^TestVerif_C14_Linearizable$",
              quick={"checks": 400, "shards": 1, "cap": 600},
-             thorough={"checks": 3000, "shards": 16, "cap": 2400}),
+             thorough={"checks": 3000, "shards": 16, "cap": 2400},
+             floors={"linearizable": {"nontrivial": 0.2, "overlapping-writes-same-cas": 0.06,
+                                      "delete-or-destroy-overlaps-write": 0.12, "transactional": 0.3, "non-transactional": 0.3}}),
         unit("failedwrite", "kv", _FILES, "^TestVerif_C14_FailedWrite$",
              quick={"checks": 300, "shards": 1, "cap": 600},
-             thorough={"checks": 600, "shards": 16, "cap": 2400}),
+             thorough={"checks": 2000, "shards": 16, "cap": 2400},
+             floors={"failed-write": {"nontrivial": 0.5}}),
     ],
 }
